@@ -72,7 +72,7 @@ def run(ctx):
     r115(ctx)
 
 
-def r111(ctx):
+def r111(ctx, classes=None):
     ctx.rule("R11.1", "persist-before-acknowledge: every success return reachable from a mutation of a durable class "
                       "passes, after the mutation, the completion of that class's persister call")
     p = ctx.prog
@@ -97,7 +97,7 @@ def r111(ctx):
     n_mut = 0
     for b in sorted(eps, key=lambda x: x.name):
         for cls in PERSISTERS:
-            if cls not in eff.summary(b):
+            if cls not in eff.summary(b) or (classes is not None and cls not in classes):
                 continue
             n_mut += 1
             lk = du.leaks(b, cls)
@@ -121,7 +121,7 @@ def r111(ctx):
                        f"`{b.name}` changes durable state `{cls}` ({desc}, line {ln}) and can return success (line "
                        f"{r['line']}) without persisting it: a crash after the reply loses an acknowledged change",
                        where=f"{b.file}:{ln}")
-    ctx.floor("R11.1", "(entry point, class) pairs with mutations", n_mut, 25)
+    ctx.floor("R11.1", "(entry point, class) pairs with mutations", n_mut, 25 if classes is None else {"channel": 12, "node": 5}.get("+".join(sorted(classes)), 1))
     # Channel::persist really stores the channel
     cp = p.fn(LS + "channel::Channel::persist")
     fv = fnview(ctx, cp)
@@ -131,6 +131,8 @@ def r111(ctx):
         e = fv.expr(c.args[2])
         ctx.ob("R11.1", render(peel(e)) == "self", f"{cp.name}/stores-self",
                f"Channel::persist stores `{render(e)[:80]}`, not this channel", where=f"{cp.file}:{ln}")
+    if classes is not None and "allowlist" not in classes:
+        return
     # Node::update_allowlist stores the live allowlist
     ua = p.fn(LS + "node::Node::update_allowlist")
     uv = fnview(ctx, ua)
